@@ -106,7 +106,7 @@ const ESCAPES: &[&str] = &[
     "\\41  ", "\\10ffff ", "\\d7ff ", "\\e000 ", "\\7f ", "\\80 ", "\\7ff ", "\\800 ", "\\ffff ", "\\10000 ",
 ];
 const TAILS: &[&str] = &["", "", " > div", ":hover", "[href]", ".b", " ", ",x", " .c", "#i", "\\", "\\\\", "(x)", "+p", "~q", "*", "\u{1}"];
-const HEADS: &[&str] = &[".", ".", ".", "#", "#", "", "div", "*", "[id]", "..", "#.", ".#"];
+const HEADS: &[&str] = &[".", ".", ".", ".", ".", "#", "#", "#", "#", "", "div", "*", "[id]", "..", "#.", ".#"];
 
 fn gen_ident(r: &mut Rng) -> String {
     let n = r.range(0, 4);
@@ -373,14 +373,14 @@ fn main() {
     let mut r = Rng::new(a.seed);
     let mut cs = Cases::new(&a.out, "C17_Model");
     let mut sm = Summary::default();
-    sm.rule = "key: selectors = head (. # none) + 0-4 identifier pieces (words incl. non-ASCII, 35 escape spellings: hex of length 1-9 with/without the space, surrogates, > 10FFFF, u32 overflow, escaped punctuation/non-ASCII, trailing backslash) + tail; plus every string of <= 3 (quick) / <= 4 (thorough) symbols over {. # a \\ 3 space - :}; set: lists of 1-12 generic / negated-only / host-scoped rules over a colliding identifier vocabulary with duplicates, class/id queries drawn from the stored keys, exceptions drawn from the stored selectors; non-trivial = key case with an escape or non-ASCII, set case with a non-empty lookup result (resp. a complex bucket)".into();
+    sm.rule = "key: selectors = head (. # none) + 0-4 identifier pieces (words incl. non-ASCII, 35 escape spellings: hex of length 1-9 with/without the space, surrogates, > 10FFFF, u32 overflow, escaped punctuation/non-ASCII, trailing backslash) + tail; plus every string of <= 4 (quick) / <= 5 (thorough) symbols over {. # a \\ 3 space - :}; set: lists of 1-12 generic / negated-only / host-scoped rules over a colliding identifier vocabulary with duplicates, class/id queries drawn from the stored keys, exceptions drawn from the stored selectors; non-trivial = key case with an escape or non-ASCII, set case with a non-empty lookup result (resp. a complex bucket)".into();
     sm.extra.insert("ascii_word_contract".into(), json!(ascii_word_contract()));
     if !ascii_word_contract() {
         sm.failure(None, "regex \\w on ASCII is not [0-9A-Za-z_]", json!({"kind": "contract"}));
     }
 
     // --- key_from_selector: generated
-    for _ in 0..(700 * a.scale) {
+    for _ in 0..(1500 * a.scale) {
         let s = gen_selector(&mut r);
         key_case(&mut cs, &mut sm, &s, "generated");
     }
@@ -389,7 +389,7 @@ fn main() {
     }
     // --- key_from_selector: exhaustive sweep
     let alpha: Vec<char> = vec!['.', '#', 'a', '\\', '3', ' ', '-', ':'];
-    let maxlen = if a.tier == "thorough" { 4 } else { 3 };
+    let maxlen = if a.tier == "thorough" { 5 } else { 4 };
     let mut frontier: Vec<String> = vec![String::new()];
     for _ in 0..maxlen {
         let mut next = vec![];
@@ -405,7 +405,7 @@ fn main() {
     }
 
     // --- stores + lookup
-    for _ in 0..(450 * a.scale) {
+    for _ in 0..(600 * a.scale) {
         let rules = gen_rules(&mut r);
         let g = generic_selectors(&rules);
         let mut names: Vec<String> = vec![];
